@@ -5,6 +5,7 @@ import (
 
 	"github.com/robertkrimen/otto"
 
+	"verif/harness/internal/bridge"
 	"verif/harness/internal/core"
 )
 
@@ -59,6 +60,39 @@ func init() {
 		}
 		e, _ := v.Export()
 		return fmt.Sprint(e), nil
+	}
+	core.GoWitnesses["c15_named_float32"] = func() (res string, err error) {
+		defer func() {
+			if r := recover(); r != nil {
+				res, err = "GO PANIC", nil
+			}
+		}()
+		vm := otto.New()
+		if err := vm.Set("x", bridge.NFloat32(1.5)); err != nil {
+			return "", err
+		}
+		v, err := vm.Get("x")
+		if err != nil {
+			return "", err
+		}
+		f, err := v.ToFloat()
+		return fmt.Sprint(f), err
+	}
+	core.GoWitnesses["c15_map_named_key"] = func() (res string, err error) {
+		defer func() {
+			if r := recover(); r != nil {
+				res, err = "GO PANIC", nil
+			}
+		}()
+		vm := otto.New()
+		if err := vm.Set("m", map[bridge.NUint16]string{300: "a"}); err != nil {
+			return "", err
+		}
+		v, err := vm.Run(`m[300]`)
+		if err != nil {
+			return "", err
+		}
+		return v.String(), nil
 	}
 	core.GoWitnesses["c15_export_holes"] = func() (string, error) {
 		vm := otto.New()
